@@ -224,11 +224,58 @@ func LoopEarlyExit(fn *ssa.Function, loop map[*ssa.BasicBlock]bool, header *ssa.
 			if loop[s] {
 				continue
 			}
-			if target(b, s) {
-				return []*ssa.BasicBlock{b, s}
+			// start one block earlier, so that what the edge into b established (`err != nil` in
+			// front of a `break`) is part of the path and can rule the continuation out
+			starts := []*ssa.BasicBlock{}
+			for _, pp := range b.Preds {
+				if loop[pp] && pp != b {
+					starts = append(starts, pp)
+				}
 			}
-			if w := CutReach(CutSpec{Fn: fn, From: s, NoEnter: func(x *ssa.BasicBlock) bool { return loop[x] }, Target: target}); w != nil {
-				return append([]*ssa.BasicBlock{b}, w...)
+			if len(starts) == 0 {
+				starts = append(starts, b)
+			}
+			for _, pp := range starts {
+				pp, b, s := pp, b, s
+				w := CutReach(CutSpec{Fn: fn, From: pp,
+					Cut: func(x *ssa.BasicBlock, i int) bool {
+						nx := x.Succs[i]
+						switch {
+						case x == pp && pp != b:
+							return nx != b
+						case x == b:
+							return nx != s
+						}
+						return loop[nx]
+					},
+					Target: func(prev, x *ssa.BasicBlock) bool {
+						if prev == nil || loop[x] {
+							return false
+						}
+						return target(prev, x)
+					}})
+				if w != nil {
+					return w
+				}
+			}
+		}
+	}
+	return nil
+}
+
+// ParamOf: v is a parameter, or a read of the cell a parameter was spilled into because a
+// closure (a deferred log/metrics function, typically) captures it. nil otherwise.
+func ParamOf(v ssa.Value) *ssa.Parameter {
+	v = Unwrap(v)
+	if pa, ok := v.(*ssa.Parameter); ok {
+		return pa
+	}
+	if u, ok := v.(*ssa.UnOp); ok && u.Op == token.MUL {
+		if a, ok := u.X.(*ssa.Alloc); ok {
+			if st := singleStore(a); st != nil {
+				if pa, ok := st.Val.(*ssa.Parameter); ok {
+					return pa
+				}
 			}
 		}
 	}
